@@ -449,6 +449,13 @@ func txScenarios(tier string) []*Scenario {
 		other = append(other, []string{"LPOP", "kq"})
 		add(fmt.Sprintf("tx/EXEC(SELECT1,RPUSH,LLEN,LPOP)||db1:PINGx%d+LPOP", n), [][]string{{"MULTI"}, {"SELECT", "1"}, {"RPUSH", "kq", "t"}, {"LLEN", "kq"}, {"LPOP", "kq"}, {"EXEC"}}, other)
 	}
+	// CLIENT LIST looks at every connection's watched keys (under the client table's lock); inside a transaction it
+	// runs while the transaction owns the database
+	// (judged on termination only: the text of CLIENT LIST nested in the EXEC reply differs from order to order)
+	for _, other := range [][][]string{{{"WATCH", "a"}, {"CLIENT", "LIST"}, {"CLIENT", "INFO"}}, {{"SELECT", "1"}, {"WATCH", "a"}, {"SELECT", "0"}, {"CLIENT", "LIST"}}} {
+		ls := &linScenario{name: "tx/EXEC(SET,CLIENT_LIST)||" + strings.Join(other[0], "_") + "+CLIENT_LIST", setup: linSetup, threads: [][][]string{{{"MULTI"}, {"SET", "a", "1"}, {"CLIENT", "LIST"}, {"EXEC"}}, other}, noLin: true, noConservation: true}
+		out = append(out, ls.scenario())
+	}
 	// FLUSHALL inside transactions of connections in different databases: each EXEC owns its database and
 	// FLUSHALL needs all of them
 	add("tx/EXEC(FLUSHALL)||db1:EXEC(FLUSHALL)", [][]string{{"MULTI"}, {"FLUSHALL"}, {"SET", "a", "0"}, {"EXEC"}}, [][]string{{"SELECT", "1"}, {"SET", "z", "1"}, {"MULTI"}, {"FLUSHALL"}, {"SET", "z", "2"}, {"EXEC"}})
